@@ -10,6 +10,7 @@ static struct { const char *name; int (*fn)(FILE *, FILE *); } cmds[] = {
     {"chunkreq", cmd_chunkreq},
     {"readenum", cmd_readenum},
     {"scan", cmd_scan},
+    {"ranges", cmd_ranges},
     {NULL, NULL}
 };
 
